@@ -123,6 +123,10 @@ class ContractMixin:
         if name == "old":
             snap = st.old
             return self.ev_in_snap(e.args[0], st, snap, k)
+        if name == "suspensions":
+            return k(Val(INT, st.susp), st)
+        if name == "user_start_time":
+            return k(Val(REAL, st.user_start_time if st.user_start_time is not None else self.loop_field(st, "time")), st)
         if name == "user_code_ran":
             return k(mk_bool(st.user_awaits > 0), st)
         if name == "step_time":
